@@ -50,6 +50,7 @@ Flat(ds) == IF ds = <<>> THEN <<>> ELSE FoldLeft(LAMBDA acc, d : acc \o d, <<>>,
 RowOK(r) ==
   CASE r.op = "run" -> /\ r.raised = 0                                      \* total: never raises
                        /\ r.got = B2N(Predict(r.sc))
+                       /\ r.again = r.got                                  \* ... however often the input is presented
                        /\ \A k \in 1..Len(r.pair) : PairSafe(r.pair[k])      \* no pairing on unsafe points
                        /\ (r.stepsok = 1 => PipelineOK(r))                    \* ... and only after validation
                        /\ ((r.got = 1 /\ r.sc.entry # "KeyValidate") => Len(r.pair) >= 2)   \* acceptance rests on the pairing equation
